@@ -8,6 +8,11 @@ import Dreye.Model.System
 namespace Dreye
 universe u
 
+/-- fitting weights: one per receptor, or one row per sample -/
+inductive Weights (α : Type u) where
+  | vec (w : List α)
+  | mat (W : List (List α))
+
 /-- the estimator's attributes that registration calls write (`filters` and their domain are fixed at construction) -/
 structure Est (α : Type u) where
   filters : List (List α)
@@ -19,6 +24,8 @@ structure Est (α : Type u) where
   lb : List α
   ub : List (Option α)
   targets : Option (List (List α))
+  w : List α                    -- the constructor's per-receptor weights (fixed)
+  W : Weights α                 -- the weights a fit uses: `register_targets(B, W)` stores `W`, or `w` when `W` is not given
 
 /-- registration calls (arguments already as arrays; `none` = argument not given) -/
 inductive RegOp (α : Type u) where
@@ -28,7 +35,7 @@ inductive RegOp (α : Type u) where
   | baseline (b : List α)
   | backgroundAdaptation (background : List α) (addBaseline add : Bool)
   | systemAdaptation (x : List α) (addBaseline add : Bool)
-  | targets (B : List (List α))
+  | targets (B : List (List α)) (W : Option (Weights α))
 
 /-- closed-form read-only queries -/
 inductive Query (α : Type u) where
@@ -40,6 +47,8 @@ inductive Query (α : Type u) where
   | getA
   | getK
   | getBounds
+  | getTargets
+  | getWeights
 
 inductive Answer (α : Type u) where
   | mat (m : List (List α))
@@ -47,14 +56,16 @@ inductive Answer (α : Type u) where
   | bools (b : List Bool)
   | adapt (k : Adapt α)
   | bounds (lb : List α) (ub : List (Option α))
+  | weights (W : Weights α)
   | notRegistered
 
 variable {α : Type u} [Zero α] [One α] [Add α] [Sub α] [Mul α] [Div α] [LE α] [DecidableLE α]
 
 /-- `ReceptorEstimator(filters, domain, K, baseline)` without sources -/
-def Est.init (filters : List (List α)) (dom : Dom α) (K : Adapt α) (baseline : List α) : Est α :=
+def Est.init (filters : List (List α)) (dom : Dom α) (K : Adapt α) (baseline : List α)
+    (w : List α := filters.map (fun _ => 1)) : Est α :=
   { filters := filters, dom := dom, K := K, baseline := baseline, sources := none, A := none,
-    lb := [], ub := [], targets := none }
+    lb := [], ub := [], targets := none, w := w, W := .vec w }
 
 /-- `capture(signals)` on the filters' own domain: n_signals × n_filters -/
 def Est.capture (s : Est α) (signals : List (List α)) : List (List α) := Dreye.capture s.dom s.filters signals
@@ -86,10 +97,10 @@ def Est.register (s : Est α) : RegOp α → Option (Est α)
       match s.A with
       | none => none
       | some A => some { s with K := newK s.K (adaptTo ab s.baseline (systemCapture A x)) add }
-  | .targets B =>
+  | .targets B W =>
       match s.A with
       | none => none
-      | some _ => some { s with targets := some B }
+      | some _ => some { s with targets := some B, W := W.getD (.vec s.w) }
 
 /-- a read-only query: the state is not an output — queries cannot change it -/
 def Est.answer (s : Est α) : Query α → Answer α
@@ -106,6 +117,8 @@ def Est.answer (s : Est α) : Query α → Answer α
   | .getA => match s.A with | none => .notRegistered | some A => .mat A
   | .getK => .adapt s.K
   | .getBounds => .bounds s.lb s.ub
+  | .getTargets => match s.targets with | none => .notRegistered | some B => .mat B
+  | .getWeights => .weights s.W
 
 /-- a whole history of registration calls (stops at the first asserting call) -/
 def Est.run (s : Est α) : List (RegOp α) → Option (Est α)
@@ -124,14 +137,17 @@ structure Reg (α : Type u) where
   lb : List α
   ub : List (Option α)
   targets : Option (List (List α))
+  w : List α
+  W : Weights α
 
 def Est.abs (s : Est α) : Reg α :=
   { filters := s.filters, dom := s.dom, K := s.K, baseline := s.baseline, sources := s.sources,
-    lb := s.lb, ub := s.ub, targets := s.targets }
+    lb := s.lb, ub := s.ub, targets := s.targets, w := s.w, W := s.W }
 
 /-- the stateless reference: answers computed from registered values only (A recomputed from scratch) -/
 def Reg.answer (r : Reg α) (q : Query α) : Answer α :=
   Est.answer { filters := r.filters, dom := r.dom, K := r.K, baseline := r.baseline, sources := r.sources,
-               A := r.sources.map (systemA r.dom r.filters), lb := r.lb, ub := r.ub, targets := r.targets } q
+               A := r.sources.map (systemA r.dom r.filters), lb := r.lb, ub := r.ub, targets := r.targets,
+               w := r.w, W := r.W } q
 
 end Dreye
